@@ -170,6 +170,18 @@ def run(ctx):
             if (plain[0], plain[1]) != (piped[0], piped[1]):
                 ctx.problem('oracle', '`%s` with the %s read from a named pipe does not give the report it gives for the same bytes in a regular file (exit status %d vs %d)' % (
                     ' '.join(argv), role, piped[0], plain[0]), None, {'pipe': piped[1].decode('utf-8', 'replace')[:400], 'file': plain[1].decode('utf-8', 'replace')[:400]}, signature='pipe-input')
+    # the writer of the pipe may open it after the program has (round t: an open that does not wait for the writer reads an empty file)
+    for argv, role in ((['report', 'quantity'], 'log'), (['csv', 'log'], 'log'), (['csv', 'database'], 'book'), (['reg'], 'book')):
+        if role == 'log':
+            plain = _core.run_real_binary(binary, base + ['-l', 'p.yaml'] + argv, {b'food.yaml': pbook, b'p.yaml': plog})
+            piped = _core.run_real_binary(binary, base + ['-l', 'p.yaml'] + argv, {b'food.yaml': pbook}, fifos={'p.yaml': plog}, fifo_delay=0.4)
+        else:
+            plain = _core.run_real_binary(binary, base + ['-d', 'p.yaml'] + argv, {b'log.yaml': plog, b'p.yaml': pbook})
+            piped = _core.run_real_binary(binary, base + ['-d', 'p.yaml'] + argv, {b'log.yaml': plog}, fifos={'p.yaml': pbook}, fifo_delay=0.4)
+        npipe += 2
+        if (plain[0], plain[1]) != (piped[0], piped[1]):
+            ctx.problem('oracle', '`%s` with the %s read from a named pipe whose writer opens it 0.4 s late does not give the report it gives for the same bytes in a regular file (exit status %d vs %d)' % (
+                ' '.join(argv), role, piped[0], plain[0]), None, {'pipe': piped[1].decode('utf-8', 'replace')[:400], 'file': plain[1].decode('utf-8', 'replace')[:400]}, signature='pipe-input-late-writer')
     # a recipe book of more than 4 MiB is read to its end (element-total lists what the resolved book has)
     big = b''.join(b'r%06d:\n  calories: 1\n' % i for i in range(190000))          # 4.5 MB
     rc1, out1, err1 = _core.run_real_binary(binary, base + ['report', 'element-total', 'calories'], {b'food.yaml': big, b'log.yaml': b''}, timeout=120)
